@@ -325,7 +325,7 @@ class Cluster:
         assert self._config.is_complete
         self._config.is_complete = False
         self._config.is_canceled = False
-        self._config.submitted_jobs = self._config.num_jobs - len(jobs_to_resubmit)
+        self._config.submitted_jobs = 0
         self._config.completed_jobs = 0
 
         for job in self.iter_jobs():
@@ -333,7 +333,10 @@ class Cluster:
                 job.state = JobState.NOT_SUBMITTED
                 job.blocked_by = updated_blocking_jobs_by_name.get(job.name, set())
             elif job.state == JobState.DONE:
+                self._config.submitted_jobs += 1
                 self._config.completed_jobs += 1
+            elif job.state == JobState.SUBMITTED:
+                self._config.submitted_jobs += 1
 
         self._serialize("prepare_for_resubmission")
         self._serialize_jobs("prepare_for_resubmission")
